@@ -112,7 +112,7 @@ let () =
            end else begin
              let a = rd () in Printf.printf "%s\n" (pv (comp_wrap fops k a))
            end
-         | "SUM" -> let n = ni () in
+         | "SUM" | "SUMM" -> let n = ni () in
            (* keyword rank = position in the alphabetical (std::map) order of the component keywords *)
            let rank kw = (match kw with "angle" -> 0 | "dihedral" -> 1 | "distance" -> 2 | "distanceZ" -> 3 | "eulerPhi" -> 4
                                      | "polarPhi" -> 5 | _ -> 6) in
@@ -122,8 +122,14 @@ let () =
                let per = per_kw || (kw = "distanceZ" && pp <> 0.0) in
                { sc_per = per; sc_P = (if per_kw then 360.0 else if per then pp else 0.0); sc_wc = (if per then wc else 0.0);
                  sc_coeff = co; sc_exp = z_of_int ex; sc_rank = z_of_int (rank kw) }) in
+           let l0 = sum_creation_order comps in
+           (* SUMM: the component number jc (creation order) gets a new period (0 = unchanged; only given for distanceZ) and coefficient *)
+           let l = if w.(0) = "SUMM" then begin
+               let jc = ni () in let pn = nf () in let cn = nf () in
+               let rec nat_of n = if n <= 0 then O else S (nat_of (n - 1)) in
+               sum_history l0 [((nat_of jc, (if pn <> 0.0 then Some pn else None)), cn)]
+             end else l0 in
            let x1 = nf () in let x2 = nf () in let xw = nf () in
-           let l = sum_creation_order comps in
            let k = sum_kind fops l in
            let (fl_, pp, cc) = (match sum_periodic fops l with Some (pp, cc) -> (1.0, pp, cc) | None -> (0.0, 0.0, 0.0)) in
            let sv v = (match v with VS x -> hex x | _ -> "?") in
